@@ -371,11 +371,59 @@ where
     // scripts in a row (everything must have been flushed by the time finish returned)
     // 6: a doubled Replace (the inner one RECEIVES replace calls), 7: Replace in front of a user hook that
     // only implements equal/delete/insert (the trait's provided `replace` runs), 8: Replace in front of Compact
-    let stacks: &[u8] = if focus == Focus::C09 { &[2, 4] } else { &[0, 1, 2, 3, 4, 5, 6, 7, 8] };
+    // 9 / 10: the compaction stage (with / without Replace behind it) is fed `replace` CALLS for some of the
+    // adjacent delete/insert pairs of the script (a caller-written differ may report a changed item that way;
+    // for Compact the provided `replace` - delete, then insert - applies), also right next to other changes
+    let ops_fused: Vec<DiffOp> = {
+        let mut v: Vec<DiffOp> = Vec::with_capacity(ops_in.len());
+        let mut i = 0;
+        while i < ops_in.len() {
+            let fuse = (i * 7 + ops_in.len() + po + a.len()) % 3 != 0;
+            match (ops_in[i], ops_in.get(i + 1).copied()) {
+                (DiffOp::Delete { old_index, old_len, new_index }, Some(DiffOp::Insert { new_len, .. })) if fuse => {
+                    v.push(DiffOp::Replace { old_index, old_len, new_index, new_len });
+                    i += 2;
+                }
+                (DiffOp::Insert { old_index, new_index, new_len }, Some(DiffOp::Delete { old_len, .. })) if fuse => {
+                    v.push(DiffOp::Replace { old_index, old_len, new_index, new_len });
+                    i += 2;
+                }
+                (op, _) => {
+                    v.push(op);
+                    i += 1;
+                }
+            }
+        }
+        v
+    };
+    let has_fused = ops_fused.len() != ops_in.len();
+    let stacks: &[u8] = if focus == Focus::C09 { &[2, 4, 9] } else { &[0, 1, 2, 3, 4, 5, 6, 7, 8, 9, 10] };
     for &stack in stacks {
+        if stack >= 9 && !has_fused {
+            continue;
+        }
         out.eval();
+        if stack >= 9 {
+            out.count("scripts_with_replace_calls_into_compact");
+        }
         let r = guard(|| -> (Vec<DiffOp>, usize) {
             match stack {
+                9 => {
+                    let mut c = Compact::new(Replace::new(Capture::new()), &old, &new);
+                    for op in &ops_fused {
+                        op.apply_to_hook(&mut c).unwrap();
+                    }
+                    c.finish().unwrap();
+                    (c.into_inner().into_inner().into_ops(), 0)
+                }
+                10 => {
+                    let mut c = Compact::new(Capture::new(), &old, &new);
+                    for op in &ops_fused {
+                        op.apply_to_hook(&mut c).unwrap();
+                    }
+                    c.finish().unwrap();
+                    (c.into_inner().into_ops(), 0)
+                }
                 0 => {
                     let mut c = Compact::new(Capture::new(), &old, &new);
                     for op in &ops_in {
@@ -477,6 +525,8 @@ where
             "Replace<Replace<Capture>>",
             "Replace<user hook without its own replace>",
             "Replace<Compact<Capture>>",
+            "Compact<Replace<Capture>> fed replace calls for some adjacent delete/insert pairs",
+            "Compact<Capture> fed replace calls for some adjacent delete/insert pairs",
         ][stack as usize];
         match r {
             Err(p) => {
@@ -507,7 +557,7 @@ where
                                 out.violation(code, format!("{}: {} | {} | out={}", name, msg, ctx(), fmt_ops(&ops)));
                             }
                         }
-                        if stack == 2 || stack == 4 {
+                        if stack == 2 || stack == 4 || stack == 9 {
                             for (code, msg) in &v.normal {
                                 out.violation(code, format!("{}: {} | {} | out={}", name, msg, ctx(), fmt_ops(&ops)));
                             }
